@@ -109,6 +109,11 @@ func writeReplay(eng *engine, id string, j job, work string) string {
 	rf := &replayFile{Property: id, Obligation: j.o.name, Kind: j.o.kind, Clause: j.o.clause, Pos: j.o.pos, Result: j.o.res, Solver: j.o.solver,
 		RawModel: j.o.model, Query: qpath, Replayed: "not attempted"}
 	rf.Model = modelValues(j.o.model)
+	if j.o.res == "sat" {
+		for k, v := range entryValues(j, dir, fn) {
+			rf.Model[k] = v
+		}
+	}
 	switch j.o.res {
 	case "sat":
 		rf.Note = "the solver found values under which the obligation's goal is false; see model_entry_values (symbols named after parameters/heaps at function entry)"
@@ -118,6 +123,86 @@ func writeReplay(eng *engine, id string, j job, work string) string {
 	data, _ := json.MarshalIndent(rf, "", " ")
 	os.WriteFile(path, data, 0644)
 	return path
+}
+
+// entryValues asks the solver for the values, in its counterexample, of the entry-state heap
+// and memory reads that occur in the obligation (fields of the receiver and the like)
+func entryValues(j job, dir, fn string) map[string]string {
+	out := map[string]string{}
+	var terms []string
+	seen := map[string]bool{}
+	var walk func(x string)
+	walk = func(x string) {
+		if len(terms) >= 60 || !(strings.Contains(x, "@0|") || strings.Contains(x, "G_")) {
+			return
+		}
+		p := splitSexp(x)
+		if p == nil {
+			if strings.HasPrefix(x, "|G_") && strings.HasSuffix(x, "@0|") && !seen[x] {
+				seen[x] = true
+				terms = append(terms, x)
+			}
+			return
+		}
+		if p[0] == "forall" || p[0] == "exists" {
+			return
+		}
+		if p[0] == "select" && len(p) == 3 && !seen[x] && !strings.Contains(x, "!b") {
+			q := splitSexp(p[1])
+			if q != nil && q[0] == "select" && len(q) == 3 && (strings.HasPrefix(q[1], "|H_") || strings.HasPrefix(q[1], "|E_")) && strings.HasSuffix(q[1], "@0|") && len(x) < 300 {
+				seen[x] = true
+				terms = append(terms, x)
+			}
+			if q == nil && strings.HasPrefix(p[1], "|M@0") && len(x) < 200 {
+				seen[x] = true
+				terms = append(terms, x)
+			}
+		}
+		for _, a := range p[1:] {
+			walk(a)
+		}
+	}
+	for _, c := range j.o.pc {
+		walk(c)
+	}
+	walk(j.o.goal)
+	if len(terms) == 0 {
+		return out
+	}
+	q := j.u.query(j.o, j.extra, false)
+	q += "(get-value (" + strings.Join(terms, " ") + "))\n"
+	qf := filepath.Join(dir, fn+".values.smt2")
+	os.WriteFile(qf, []byte(q), 0644)
+	defer os.Remove(qf)
+	for _, sp := range solvers[:2] {
+		res, txt, _ := runSolver(contextBackground(), sp, qf, 20000, 1)
+		if res != "sat" {
+			continue
+		}
+		// ((term value) (term value) ...)
+		i := strings.Index(txt, "((")
+		if i < 0 {
+			continue
+		}
+		body := strings.TrimSpace(txt[i:])
+		for _, pair := range splitSexp(body) {
+			kv := splitSexp(pair)
+			if len(kv) == 2 {
+				out[prettyRead(kv[0])] = kv[1]
+			}
+		}
+		break
+	}
+	return out
+}
+
+var prettyReadRe = regexp.MustCompile(`^\(select \(select \|H_([A-Za-z0-9_]+)@0\| \|?([A-Za-z0-9_.]+)\.ref![0-9]+\|?\) \|?[A-Za-z0-9_.]+\.off![0-9]+\|?\)$`)
+
+func prettyRead(t string) string {
+	if m := prettyReadRe.FindStringSubmatch(t); m != nil {
+		return m[2] + " . " + m[1] + " (at entry)"
+	}
+	return t
 }
 
 var defFunRe = regexp.MustCompile(`\(define-fun \|?([^| ()]+)\|? \(\) [^\n]*\n\s*([^\n]*)\)`)
